@@ -2,6 +2,7 @@
 # MANIFEST.setup_cmd: build everything the checks need, offline, from files on disk.
 set -e
 export CARGO_NET_OFFLINE=true
+unset CARGO_TARGET_DIR RUSTFLAGS
 cd /verif/mc
 cargo build --release --offline
 RUSTFLAGS="--cfg typeshare_verif" cargo build --offline --manifest-path /repo/Cargo.toml -p typeshare-cli \
